@@ -99,8 +99,8 @@ FLOORS = {
               "reach:txtorcon.controller:TorProcessProtocol._status_client": 1500,
               "reach:txtorcon.controller:TorProcessProtocol._tor_connected": 2500},
     "thorough": {"evaluations": 25000, "steps_judged": 200000, "launch_outcomes_judged": 25000,
-                 "when_connected_outcomes_judged": 150000, "launch_success_judged": 3000,
-                 "temp_dir_checks_after_exit": 15000, "caller_dir_checks": 100000,
+                 "when_connected_outcomes_judged": 150000, "launch_success_judged": 4000,
+                 "temp_dir_checks_after_exit": 20000, "caller_dir_checks": 100000,
                  "timeouts_before_bootstrap_judged": 10000, "shutdown_firings": 25000,
                  "split_listener_cases": 10000,
                  "reach:txtorcon.controller:TorProcessProtocol._maybe_notify_connected": 40000,
@@ -872,7 +872,8 @@ def shard_cases(spec):
             for dd in ("temp", rnd.choice(["caller", "caller", "caller-new"])):
                 yield variant(rnd, dd, sched=list(s))
     elif mode == "split":
-        scheds = [s for s in enumerate_schedules(spec["maxlen"]) if "lst" in s]
+        scheds = [s for s in enumerate_schedules(spec["maxlen"])
+                  if "lst" in s and len(s) >= spec.get("minlen", 1)]
         offsets = spec["offsets"]
         j = 0
         for i, s in enumerate(scheds):
@@ -902,8 +903,10 @@ def run_shard(spec, rec):
             rec.enumerated("all causal stimulus permutations of length <= %d (x temp/caller data directory)"
                            % spec["maxlen"])
         else:
-            rec.enumerated("listener line split at offsets %d..%d x all causal permutations of length <= %d containing lst"
-                           % (min(spec["offsets"]), max(spec["offsets"]), spec["maxlen"]))
+            offs = spec["offsets"]
+            rec.enumerated("listener output split at %s x all causal permutations of length %d..%d containing lst" % (
+                "every offset 1..%d" % max(offs) if offs == list(range(1, max(offs) + 1))
+                else "offsets %s" % ",".join(str(o) for o in offs), spec.get("minlen", 1), spec["maxlen"]))
     finally:
         tempfile.tempdir = old
         shutil.rmtree(scratch, ignore_errors=True)
@@ -937,6 +940,6 @@ def plan(tier, seed):
             specs.append({"mode": "split", "maxlen": 4, "offsets": list(range(1, TCP_LISTENER_LEN)),
                           "k": k, "of": 12, "timeout_s": 3000})
         for k in range(4):
-            specs.append({"mode": "split", "maxlen": 5, "offsets": BOUNDARY_OFFSETS, "k": k, "of": 4,
+            specs.append({"mode": "split", "maxlen": 5, "minlen": 5, "offsets": BOUNDARY_OFFSETS, "k": k, "of": 4,
                           "timeout_s": 3000})
     return specs
